@@ -28,8 +28,19 @@
 // only in these cases: the base variable is re-assigned between Lock and the access; a callee or a
 // closure releases the caller's lock; Unlock is called through an alias/pointer of the mutex; the
 // content of a field (map, slice, pointer) escapes into a local variable, a struct or a return value
-// and is used after the lock is released (only local aliases of INNER maps are followed); accesses
-// through reflection, unsafe or code outside the three packages. These are limits of the check.
+// and is used after the lock is released (followed: local aliases of INNER maps, and local aliases of a
+// tracked MAP field itself - see "container aliases" below); accesses through reflection, unsafe or code
+// outside the three packages. These are limits of the check.
+//
+// Container aliases (time-of-check / time-of-use on the table itself). `x := B.f` for a tracked plain map
+// field f, or `x := B.helper()` where helper is a method whose return statement is `return R.f` on its
+// receiver R, makes the local x an alias of B.f. Every `x[k]`, `x[k] = v`, `delete(x, k)`, `len(x)`,
+// `range x` is inventoried as an access of f's location class through base B. A lock of B counts for such an
+// access ONLY IF IT IS STILL THE SAME ACQUISITION under which the alias was read from the field (every Lock
+// statement starts a new acquisition; a helper's own critical section has ended when it returns): a map
+// captured in one critical section and written in a later one may no longer be the map the field refers to
+// (the field can have been re-assigned in between), so the later lock does not protect "the children of B",
+// only a map that used to be it. Such a site appears in the table without the lock and breaks the discipline.
 package gen
 
 import (
@@ -359,6 +370,9 @@ type generator struct {
 	tab     *Table
 	lockIDs map[string]int
 	owner   map[string]bool // effective owner set (after demotion)
+	// methods whose return statement hands out the map of a tracked field of their receiver: name -> field
+	containerHelpers map[string]*fieldSpec
+	epochs           int
 }
 
 // Generate inventories the tree at repo.
@@ -410,6 +424,10 @@ func Generate(repo string) (*Table, error) {
 		if !changed {
 			break
 		}
+	}
+	g.containerHelpers = map[string]*fieldSpec{}
+	for _, p := range pkgs {
+		g.findContainerHelpers(p)
 	}
 	for _, p := range pkgs {
 		g.inventory(p)
@@ -737,12 +755,20 @@ type lockKey struct {
 type flow struct {
 	locks map[lockKey]bool // held -> exclusive?
 	phase map[string]int   // base -> phase of the completion event
+	epoch map[lockKey]int  // held -> which acquisition (Lock statement instance) this is; -1: differs between paths
+}
+
+func newFlow() *flow {
+	return &flow{locks: map[lockKey]bool{}, phase: map[string]int{}, epoch: map[lockKey]int{}}
 }
 
 func (f *flow) clone() *flow {
-	n := &flow{locks: map[lockKey]bool{}, phase: map[string]int{}}
+	n := newFlow()
 	for k, v := range f.locks {
 		n.locks[k] = v
+	}
+	for k, v := range f.epoch {
+		n.epoch[k] = v
 	}
 	for k, v := range f.phase {
 		n.phase[k] = v
@@ -764,6 +790,11 @@ func (f *flow) equal(o *flow) bool {
 			return false
 		}
 	}
+	for k := range f.locks {
+		if f.epoch[k] != o.epoch[k] {
+			return false
+		}
+	}
 	return true
 }
 
@@ -778,8 +809,14 @@ func meet(fs []*flow) *flow {
 			w, ok := o.locks[k]
 			if !ok {
 				delete(r.locks, k)
-			} else if v && !w {
-				r.locks[k] = false
+				delete(r.epoch, k)
+			} else {
+				if v && !w {
+					r.locks[k] = false
+				}
+				if r.epoch[k] != o.epoch[k] {
+					r.epoch[k] = -1
+				}
 			}
 		}
 		for k, v := range r.phase {
@@ -796,6 +833,14 @@ type aliasInfo struct {
 	base string
 }
 
+// containerAlias: a local variable holding the map of a tracked field (not an inner map)
+type containerAlias struct {
+	spec   *fieldSpec
+	base   string
+	epochs map[lockKey]int // the acquisitions of base's locks under which the alias was read from the field
+	how    string
+}
+
 type walker struct {
 	g      *generator
 	p      *pkgData
@@ -806,6 +851,7 @@ type walker struct {
 	recv   string
 	recvT  string
 	alias  map[types.Object]aliasInfo
+	outer  map[types.Object]containerAlias
 	nclos  int
 	fdecl  *ast.FuncDecl
 }
@@ -818,17 +864,17 @@ func (g *generator) inventory(p *pkgData) {
 				continue
 			}
 			tn, rn := recvInfo(fd)
-			w := &walker{g: g, p: p, file: p.fnames[i], fn: funcName(p.name, fd), recv: rn, recvT: tn, alias: map[types.Object]aliasInfo{}, fdecl: fd}
+			w := &walker{g: g, p: p, file: p.fnames[i], fn: funcName(p.name, fd), recv: rn, recvT: tn, alias: map[types.Object]aliasInfo{}, outer: map[types.Object]containerAlias{}, fdecl: fd}
 			w.owner = g.owner[w.fn]
 			w.selfs = selfBases(tn, rn)
-			fl := &flow{locks: map[lockKey]bool{}, phase: map[string]int{}}
+			fl := newFlow()
 			w.block(fd.Body.List, fl)
 		}
 		// package-level variable initialisers
 		for _, d := range f.Decls {
 			if gd, ok := d.(*ast.GenDecl); ok && gd.Tok == token.VAR {
-				w := &walker{g: g, p: p, file: p.fnames[i], fn: p.name + ".<package var>", alias: map[types.Object]aliasInfo{}, selfs: map[string]bool{}}
-				fl := &flow{locks: map[lockKey]bool{}, phase: map[string]int{}}
+				w := &walker{g: g, p: p, file: p.fnames[i], fn: p.name + ".<package var>", alias: map[types.Object]aliasInfo{}, outer: map[types.Object]containerAlias{}, selfs: map[string]bool{}}
+				fl := newFlow()
 				for _, s := range gd.Specs {
 					for _, v := range s.(*ast.ValueSpec).Values {
 						w.expr(v, fl)
@@ -924,7 +970,7 @@ func (w *walker) closure(fl *ast.FuncLit, inheritRole bool) {
 	if !inheritRole {
 		sub.owner = false
 	}
-	nf := &flow{locks: map[lockKey]bool{}, phase: map[string]int{}}
+	nf := newFlow()
 	sub.block(fl.Body.List, nf)
 	w.nclos = sub.nclos
 }
@@ -1047,12 +1093,17 @@ func (w *walker) stmt(s ast.Stmt, fl *flow) bool {
 			switch op {
 			case "Lock":
 				fl.locks[k] = true
+				w.g.epochs++
+				fl.epoch[k] = w.g.epochs
 			case "RLock":
 				if _, held := fl.locks[k]; !held {
 					fl.locks[k] = false
+					w.g.epochs++
+					fl.epoch[k] = w.g.epochs
 				}
 			default:
 				delete(fl.locks, k)
+				delete(fl.epoch, k)
 			}
 			return false
 		}
@@ -1078,6 +1129,7 @@ func (w *walker) stmt(s ast.Stmt, fl *flow) bool {
 				if vs, ok := sp.(*ast.ValueSpec); ok {
 					if len(vs.Values) == 1 && len(vs.Names) >= 1 {
 						w.maybeAlias(vs.Names[0], vs.Values[0])
+						w.maybeContainerAlias(vs.Names[0], vs.Values[0], fl)
 					}
 					for _, v := range vs.Values {
 						w.expr(v, fl)
@@ -1302,6 +1354,167 @@ func (w *walker) touchInner(e ast.Expr, write bool, fl *flow, note string) bool 
 	return true
 }
 
+// isMapField: fi is a tracked plain field whose declared type is a map
+func (w *walker) isMapField(fi *fieldInfo, e ast.Expr) bool {
+	if fi == nil || fi.spec == nil || fi.kind != kPlain {
+		return false
+	}
+	if tv, ok := w.p.info.Types[e]; ok && tv.Type != nil {
+		_, isMap := tv.Type.Underlying().(*types.Map)
+		return isMap
+	}
+	return false
+}
+
+func (w *walker) heldEpochs(base string, fl *flow) map[lockKey]int {
+	m := map[lockKey]int{}
+	for k := range fl.locks {
+		if k.base == base && fl.epoch[k] > 0 {
+			m[k] = fl.epoch[k]
+		}
+	}
+	return m
+}
+
+func (w *walker) maybeContainerAlias(name *ast.Ident, rhs ast.Expr, fl *flow) {
+	obj := w.p.info.Defs[name]
+	if obj == nil {
+		obj = w.p.info.Uses[name]
+	}
+	if obj == nil {
+		return
+	}
+	for {
+		if pe, ok := rhs.(*ast.ParenExpr); ok {
+			rhs = pe.X
+			continue
+		}
+		break
+	}
+	switch x := rhs.(type) {
+	case *ast.SelectorExpr:
+		if fi, b, ok := w.field(x); ok && w.isMapField(fi, x) {
+			w.outer[obj] = containerAlias{fi.spec, b, w.heldEpochs(b, fl), "read from the field at line " + fmt.Sprint(w.p.fset.Position(x.Pos()).Line)}
+			return
+		}
+	case *ast.CallExpr:
+		if se, ok := x.Fun.(*ast.SelectorExpr); ok && len(x.Args) == 0 {
+			if spec := w.g.containerHelpers[w.p.calleeName(x)]; spec != nil {
+				b := exprString(se.X)
+				// the helper's own critical section (if any) has ended when it returns: only locks the CALLER holds count
+				w.outer[obj] = containerAlias{spec, b, w.heldEpochs(b, fl), fmt.Sprintf("returned by %s() at line %d", se.Sel.Name, w.p.fset.Position(x.Pos()).Line)}
+				return
+			}
+		}
+	case *ast.Ident:
+		if o2 := w.p.info.Uses[x]; o2 != nil {
+			if a, ok := w.outer[o2]; ok {
+				w.outer[obj] = a
+				return
+			}
+		}
+	}
+	delete(w.outer, obj) // re-assigned to something else
+}
+
+// containerOf: is e a local alias of the map of a tracked field?
+func (w *walker) containerOf(e ast.Expr) (containerAlias, bool) {
+	for {
+		if pe, ok := e.(*ast.ParenExpr); ok {
+			e = pe.X
+			continue
+		}
+		break
+	}
+	if id, ok := e.(*ast.Ident); ok {
+		if obj := w.p.info.Uses[id]; obj != nil {
+			a, ok := w.outer[obj]
+			return a, ok
+		}
+	}
+	return containerAlias{}, false
+}
+
+// touchContainer records an access to a tracked map through a local alias. A lock of the alias' base counts
+// only if it is still the acquisition under which the alias was read from the field.
+func (w *walker) touchContainer(e ast.Expr, whole ast.Expr, write bool, fl *flow, what string) bool {
+	a, ok := w.containerOf(e)
+	if !ok {
+		return false
+	}
+	f2 := fl.clone()
+	stale := false
+	for k := range f2.locks {
+		if k.base != a.base {
+			continue
+		}
+		if ep, had := a.epochs[k]; !had || ep != f2.epoch[k] {
+			delete(f2.locks, k)
+			delete(f2.epoch, k)
+			stale = true
+		}
+	}
+	note := what + " through the local alias `" + exprString(e) + "` of the map (" + a.how + ")"
+	if stale {
+		note += "; the lock held here is NOT the critical section in which the map was read from the field, so it does not count (stale table: the field may have been re-assigned in between)"
+	}
+	w.emit(whole.Pos(), a.spec.Loc, write, false, a.base, f2, whole, note)
+	return true
+}
+
+// findContainerHelpers: methods `func (R *T) m() M { ... return R.f }` for a tracked plain map field f.
+func (g *generator) findContainerHelpers(p *pkgData) {
+	for _, f := range p.files {
+		for _, d := range f.Decls {
+			fd, ok := d.(*ast.FuncDecl)
+			if !ok || fd.Body == nil || fd.Recv == nil || fd.Type.Results == nil || len(fd.Type.Results.List) != 1 {
+				continue
+			}
+			_, rn := recvInfo(fd)
+			if rn == "" {
+				continue
+			}
+			ast.Inspect(fd.Body, func(n ast.Node) bool {
+				if _, isLit := n.(*ast.FuncLit); isLit {
+					return false
+				}
+				rs, ok := n.(*ast.ReturnStmt)
+				if !ok || len(rs.Results) != 1 {
+					return true
+				}
+				se, ok := rs.Results[0].(*ast.SelectorExpr)
+				if !ok {
+					return true
+				}
+				if id, ok := se.X.(*ast.Ident); !ok || id.Name != rn {
+					return true
+				}
+				sel, ok := p.info.Selections[se]
+				if !ok {
+					return true
+				}
+				v, ok := sel.Obj().(*types.Var)
+				if !ok || !v.IsField() {
+					return true
+				}
+				fi := p.fields[v.Origin()]
+				if fi == nil || fi.spec == nil || fi.kind != kPlain {
+					return true
+				}
+				if _, isMap := v.Type().Underlying().(*types.Map); !isMap {
+					return true
+				}
+				name := funcName(p.name, fd)
+				if g.containerHelpers[name] == nil {
+					g.containerHelpers[name] = fi.spec
+					g.tab.Notes = append(g.tab.Notes, fmt.Sprintf("container helper: %s returns the map %s.%s of its receiver; callers' uses of the result are inventoried as accesses of that field", name, fi.spec.Struct, fi.spec.Field))
+				}
+				return true
+			})
+		}
+	}
+}
+
 func (w *walker) maybeAlias(name *ast.Ident, rhs ast.Expr) {
 	if ie, ok := rhs.(*ast.IndexExpr); ok {
 		if fi, b, ok := w.field(ie.X); ok && fi.spec != nil && fi.spec.Inner != 0 {
@@ -1320,6 +1533,9 @@ func (w *walker) assign(x *ast.AssignStmt, fl *flow) {
 	if len(x.Rhs) == 1 && len(x.Lhs) >= 1 {
 		if id, ok := x.Lhs[0].(*ast.Ident); ok {
 			w.maybeAlias(id, x.Rhs[0])
+			if len(x.Lhs) == 1 {
+				w.maybeContainerAlias(id, x.Rhs[0], fl)
+			}
 		}
 	}
 	for _, r := range x.Rhs {
@@ -1353,6 +1569,10 @@ func (w *walker) lhs(e ast.Expr, fl *flow) {
 			w.expr(x.Index, fl)
 			return
 		}
+		if w.touchContainer(x.X, x, true, fl, "element assigned") {
+			w.expr(x.Index, fl)
+			return
+		}
 	case *ast.Ident:
 		return
 	}
@@ -1361,6 +1581,9 @@ func (w *walker) lhs(e ast.Expr, fl *flow) {
 
 func (w *walker) rangeExpr(e ast.Expr, fl *flow) {
 	if w.touchInner(e, false, fl, "range over the inner map") {
+		return
+	}
+	if w.touchContainer(e, e, false, fl, "range") {
 		return
 	}
 	w.expr(e, fl)
@@ -1384,7 +1607,7 @@ func (w *walker) call(c *ast.CallExpr, fl *flow) {
 				if fi, b, ok := w.field(c.Args[0]); ok && fi.spec != nil {
 					w.emit(c.Args[0].Pos(), fi.spec.Loc, true, false, b, fl, c, "delete")
 					w.expr(c.Args[0].(*ast.SelectorExpr).X, fl)
-				} else if !w.touchInner(c.Args[0], true, fl, "delete from the inner map") {
+				} else if !w.touchInner(c.Args[0], true, fl, "delete from the inner map") && !w.touchContainer(c.Args[0], c, true, fl, "delete") {
 					w.expr(c.Args[0], fl)
 				}
 				w.expr(c.Args[1], fl)
@@ -1392,7 +1615,7 @@ func (w *walker) call(c *ast.CallExpr, fl *flow) {
 			}
 		case "len", "cap":
 			if len(c.Args) == 1 {
-				if !w.touchInner(c.Args[0], false, fl, id.Name+" of the inner map") {
+				if !w.touchInner(c.Args[0], false, fl, id.Name+" of the inner map") && !w.touchContainer(c.Args[0], c, false, fl, id.Name) {
 					w.expr(c.Args[0], fl)
 				}
 				return
@@ -1461,6 +1684,9 @@ func (w *walker) args(c *ast.CallExpr, fl *flow) {
 		if w.touchInner(a, false, fl, "inner map passed to a call") {
 			continue
 		}
+		if w.touchContainer(a, a, false, fl, "map passed to a call (what the callee does with it is not followed)") {
+			continue
+		}
 		w.expr(a, fl)
 	}
 }
@@ -1489,6 +1715,10 @@ func (w *walker) expr(e ast.Expr, fl *flow) {
 			return
 		}
 		if w.touchInner(x.X, false, fl, "inner element read") {
+			w.expr(x.Index, fl)
+			return
+		}
+		if w.touchContainer(x.X, x, false, fl, "element read") {
 			w.expr(x.Index, fl)
 			return
 		}
